@@ -1,11 +1,11 @@
 #!/bin/bash
 # tools/regress_bite.sh - for every "fixed:" entry of KNOWN_FINDINGS.txt: reverse the fix on a scratch copy of /repo (outside /repo and /verif, removed afterwards)
 # and count the committed regression replays of the owning property that report a violation there (must be >= 1 for every fix).
-cd /verif
+cd "$(dirname "$0")/.." || exit 2; root=$(pwd); repo=${VERIF_REPO_SRC:-/repo}
 grep "^fixed:" KNOWN_FINDINGS.txt | awk '{print $2, $3}' | sed 's/property=//' | while read pid h; do
-  t=$(mktemp -d /tmp/pbv_rb_XXXX); (cd /repo && git archive HEAD pb_bss | tar -x -C $t)
-  if [ $h = 4147d5e ]; then (cd $t && patch -p1 -R -s < /verif/tools/mutants/revert_0bdea19.patch); fi
-  (cd $t && patch -p1 -R -s < /verif/tools/mutants/revert_$h.patch) || { echo "$h: reverse does not apply"; rm -rf $t; continue; }
+  t=$(mktemp -d /tmp/pbv_rb_XXXX); (cd $repo && git archive HEAD pb_bss | tar -x -C $t)
+  if [ $h = 4147d5e ]; then (cd $t && patch -p1 -R -s < $root/tools/mutants/revert_0bdea19.patch); fi
+  (cd $t && patch -p1 -R -s < $root/tools/mutants/revert_$h.patch) || { echo "$h: reverse does not apply"; rm -rf $t; continue; }
   n=0
   for f in regress/$pid/*.json; do
     if VERIF_REPO=$t ./check $pid --replay "$f" 2>/dev/null | grep -q "^VIOLATION"; then n=$((n+1)); fi
